@@ -123,6 +123,18 @@ func DirPatterns(fs billy.Filesystem, path []string) ([]Pattern, error) {
 	return ps, nil
 }
 
+// InfoExcludePatterns returns the patterns of $GIT_DIR/info/exclude, given the
+// filesystem of the git directory itself. A missing file is not an error. It
+// is for callers whose worktree filesystem refuses paths inside .git, where
+// RootPatterns cannot reach the file.
+func InfoExcludePatterns(gitDir billy.Filesystem) ([]Pattern, error) {
+	ps, err := readIgnoreFile(gitDir, nil, "info/exclude")
+	if err != nil && !os.IsNotExist(err) {
+		return nil, err
+	}
+	return ps, nil
+}
+
 // RootPatterns returns the patterns that apply to a whole worktree before any
 // .gitignore is consulted: .git/info/exclude followed by the .gitignore at the
 // root, in ascending order of priority. Missing files are not an error.
